@@ -68,7 +68,9 @@ def main():
     expect(len(roots) == 12 and tot == 96, f"frontier {len(roots)} {tot}")
     # 6. ixai is importable from the repository working tree and binds the dispatchers
     import ixai
-    expect(ixai.__file__.startswith('/repo/'), f"ixai imported from {ixai.__file__}")
+    import os
+    repo = os.environ.get('IXAI_REPO', '/repo').rstrip('/')
+    expect(ixai.__file__.startswith(repo + '/'), f"ixai imported from {ixai.__file__}, expected {repo}")
     import ixai.storage.geometric_reservoir_storage as g
     expect(g.random.random.__module__ == 'ixverif.scripted', "dispatcher not bound in ixai")
     print("selftest", "ok" if ok else "FAILED")
